@@ -118,6 +118,14 @@ def run_case(ctx, col, case):
                 with getattr(A.g, cm)(), getattr(B.g, cm)():
                     A.drain(); B.drain()
                     ok = do_steps(rng.randint(1, 3), cm == "absolute_mode", cm == "relative_mode", depth + 1)
+                    if ok is not False and rng.random() < 0.35:
+                        # the body switches the mode explicitly (a helper that "leaves things relative"):
+                        # the block must still hand back the mode each builder had on entry
+                        other = "relative" if cm == "absolute_mode" else "absolute"
+                        A.g.set_distance_mode(other); B.g.set_distance_mode(other)
+                        A.drain(); B.drain()
+                        col.count("explicit_mode_switch_inside_block")
+                        ok = do_steps(rng.randint(1, 2), other == "absolute", other == "relative", depth + 1)
                 A.drain(); B.drain()
                 if ok is False:
                     return False
